@@ -22,6 +22,7 @@ inductive NoEmit (m : Nat) : E → Prop where
   | assign x e : NoEmit m e → NoEmit m (.assign x e)
   | emitNone t : t ≠ m → NoEmit m (.emit t none)
   | emitSome t e : t ≠ m → NoEmit m e → NoEmit m (.emit t (some e))
+  | emitI t es : t ≠ m → (∀ e ∈ es, NoEmit m e) → NoEmit m (.emitI t es)
   | mkList es : (∀ e ∈ es, NoEmit m e) → NoEmit m (.mkList es)
   | mkObj c : NoEmit m (.mkObj c)
   | index l i : NoEmit m l → NoEmit m i → NoEmit m (.index l i)
@@ -114,6 +115,11 @@ theorem noEmit_run (cfg : Cfg) (P : Prog) (m : Nat) (hP : ProgNoEmit m P) :
       | emitSome t e hne he =>
         simp only [run] at h
         have hev : TaskNoEmit m (.ev e) := he
+        have := fun a => countTag_single_ne m t a hne
+        (repeat' split at h) <;> grind
+      | emitI t es hne hes =>
+        simp only [run] at h
+        have hev : ∀ acc, TaskNoEmit m (.evs es acc) := fun _ => hes
         have := fun a => countTag_single_ne m t a hne
         (repeat' split at h) <;> grind
       | mkList es hes =>
